@@ -22,7 +22,7 @@ ASSUMPTIONS = [
 CLASSES = {1: "unauthorised-record-change", 3: "expiry-not-the-blocks-bought", 4: "sub-name-invariant-broken",
            5: "failed-transaction-left-a-trace", 6: "two-records-for-one-name",
            7: "name-on-sale-without-its-owners-sell-transaction"}
-KNOWN = {11: "C20.purchase_misses_uncommitted_sub", 12: "C20.expiry_blocks_ge_2p63"}
+KNOWN = {11: "C20.purchase_misses_uncommitted_sub"}
 
 
 def evaluate(ctx, vh, args):
@@ -57,8 +57,35 @@ def payload(case, step, extra):
                 observed_after=steps[-1]["obs"], ok=steps[-1].get("ok"), how="./check replay <this file>")
 
 
-def judge(ctx, cases, mm, mv):
+def corpus_expectations(ctx, cases):
+    """Replays of fixed findings / corpus cases: the recorded outcomes must hold on the implementation."""
+    cp = os.path.join(common.VERIF, "corpus", "C20.json")
+    if not os.path.exists(cp):
+        return False
     found = False
+    for sc in json.load(open(cp))["scenarios"]:
+        for ci, c in enumerate(cases):
+            if c["scenario"]["label"] != sc["label"]:
+                continue
+            pos, blk, txi = {}, 0, 0
+            for si, st in enumerate(c["steps"]):
+                if st.get("end"):
+                    blk, txi = blk + 1, 0
+                else:
+                    pos[(blk, txi)] = si
+                    txi += 1
+            for (b, x, ok) in sc.get("expect", []):
+                si = pos.get((b, x))
+                if si is None or bool(c["steps"][si].get("ok")) != ok:
+                    found = True
+                    ctx.violation("corpus_%s_%d_%d" % (sc["label"], b, x), payload(c, si if si is not None else 0, {
+                        "kind": "corpus-expectation-failed", "finding": sc.get("finding"), "expected_ok": ok}))
+                    break  # the first failed expectation of a history is the replay; later ones follow from it
+    return found
+
+
+def judge(ctx, cases, mm, mv):
+    found = corpus_expectations(ctx, cases)
     for (ci, step, cl) in mv:
         if cl in KNOWN and ctx.known_finding(KNOWN[cl], ""):
             continue
@@ -84,12 +111,15 @@ def run(ctx):
         args = ["-seed", str(ctx.seed), "-n", "1000", "-blocks", "40", "-chunk", "10"]
     else:
         args = ["-seed", str(ctx.seed), "-n", "120", "-blocks", "30", "-chunk", "5"]
+    cp = os.path.join(common.VERIF, "corpus", "C20.json")
+    if os.path.exists(cp):
+        args += ["-corpus", cp]
     rep, cases, mm, mv, st = evaluate(ctx, vh, args)
     cov = ctx.coverage
     cov.update({
         "evaluations": rep["txs"], "distinct_nontrivial": rep["distinct"],
-        "rule": "8 directed histories (uncommitted sub-name vs purchase; look-alike names n/xn/nx/nn/an with sub-names; block count "
-                ">= 2^63; expiry and re-purchase; listing -> expiry -> expired-name purchase -> stranger offers the old price, with "
+        "rule": "corpus/C20.json (replay of the fixed finding C20.expiry_blocks_ge_2p63 with expected refusals) + 8 directed histories (uncommitted sub-name vs purchase; look-alike names n/xn/nx/nn/an with sub-names; block count "
+                ">= 2^63 refused; expiry and re-purchase; listing -> expiry -> expired-name purchase -> stranger offers the old price, with "
                 "its neighbours: listing cancelled before expiry, renewed and bought live once; inputs only Validate rejects) + seeded random histories over 6 accounts (5 funded, 1 poor), 12 names that are "
                 "prefixes/suffixes of each other and sub-/sub-sub-names, 5 invalid names, 5 option sets; the generator looks at the "
                 "observed registry so that ~70% of signers are the current owner and offers straddle the asking/base price; "
